@@ -1146,10 +1146,9 @@ def _r11(ctx, pkg, regs, protos, consts, universal):
     # what a thermal process is: constants / constructor parameters its __init__ stores, and the instances of the package
     tp = pkg.cls("ThermalProcess")
     init = tp.methods.get("__init__")
-    fixed, fed = {}, {}
+    fixed, fed, stores = {}, {}, {}
     if init is not None:
         ctx.saw(TPROC, "ThermalProcess.__init__")
-        stores = {}
         for m in tp.methods.values():
             for n in ast.walk(m):
                 if isinstance(n, ast.Attribute) and isinstance(n.ctx, ast.Store) and isinstance(n.value, ast.Name) and n.value.id == "self":
@@ -1165,6 +1164,14 @@ def _r11(ctx, pkg, regs, protos, consts, universal):
                     fixed[st.targets[0].attr] = v.value
                 elif isinstance(v, ast.Name) and v.id in params:
                     fed[st.targets[0].attr] = v.id
+    # ... or that the class body fixes (`temp_min = -1.0`) and no method stores
+    for a_, node_ in tp.attrs.items():
+        v = node_
+        if a_ not in fixed and a_ not in fed and not (init is not None and a_ in stores):
+            if isinstance(v, ast.UnaryOp) and isinstance(v.op, ast.USub) and isinstance(v.operand, ast.Constant):
+                fixed[a_] = -v.operand.value
+            elif isinstance(v, ast.Constant):
+                fixed[a_] = v.value
     # attributes of thermal processes assigned from outside the class make their value unknown
     outside = {n.attr for f_, m in pkg.modules.items() for n in ast.walk(m) if isinstance(n, ast.Attribute) and isinstance(n.ctx, ast.Store)
                and not (isinstance(n.value, ast.Name) and n.value.id == "self") and n.attr in set(fixed) | set(fed)}
@@ -1437,6 +1444,9 @@ BENIGN = [
     {"name": "thermal-process-window-parameters-unused", "edits": [
         {"file": TPROC, "old": "        rate: str,\n    ) -> None:", "new": "        rate: str,\n        temp_min: float = -1.0,\n    ) -> None:"},
         {"file": TPROC, "old": "        self.temp_min = -1.0\n", "new": "        self.temp_min = temp_min\n"}]},
+    {"name": "thermal-process-window-as-class-attributes", "edits": [
+        {"file": TPROC, "old": "        self.temp_min = -1.0\n        self.temp_max = -1.0\n", "new": ""},
+        {"file": TPROC, "old": "class ThermalProcess(Component):\n", "new": "class ThermalProcess(Component):\n    temp_min = -1.0\n    temp_max = -1.0\n\n"}]},
     {"name": "renderer-windows-in-helper", "edits": [
         {"file": TLOADER, "old": '        ltranges = [f"Tgas>={r.temp_min}" if r.temp_min > 0 else "" for r in reactions]\n', "new": '        ltranges = [self._lower_bound(r) for r in reactions]\n'},
         {"file": TLOADER, "old": "    def _assign_rates(\n", "new": '    def _lower_bound(self, r):\n        if r.temp_min > 0:\n            return f"Tgas>={r.temp_min}"\n        return ""\n\n    def _assign_rates(\n'}]},
